@@ -13,11 +13,11 @@ import _dp
 
 def run(c):
     drv = c.build("dp")
-    c.mc("SegIDChain", "SegIDChainMC.%s.cfg" % c.tier, workers=4 if not c.thorough else 8, timeout=1500)
-    _dp.model(c)
     if c.replay:
         trace = c.replay
     else:
+        c.mc("SegIDChain", "SegIDChainMC.%s.cfg" % c.tier, workers=4 if not c.thorough else 8, timeout=1500)
+        _dp.model(c)
         trace = c.scratch + "/line.ndjson"
         c.run_driver(drv, ["-mode", "line", "-out", trace])
     _dp.validate(c, "C22", trace)
